@@ -192,6 +192,15 @@ Theorem flush_refines : forall b, wok b -> Forall (fun x => 0 <= x < 256) (cb_by
 Proof. exact XtcBitsProofs.c_flush_spec. Qed.
 Print Assumptions flush_refines.
 
+(* the reader side: decodebits (unmasked (lastbyte >> lastbits) << k ORed into num, lastbyte kept modulo 2^32,
+   final mask) returns exactly the next n bits of the stream its buffer stands for, as the abstract reader does *)
+Theorem decodebits_refines : forall r n, rok r -> 0 <= n <= 32 ->
+  n <= rb_lastbits r + 8 * Z.of_nat (length (rb_bytes r)) ->
+  get_bits (Z.to_nat n) (rbits r) = Some (fst (c_decodebits r n), rbits (snd (c_decodebits r n))) /\
+  rok (snd (c_decodebits r n)).
+Proof. exact XtcBitsProofs.c_decodebits_get_bits. Qed.
+Print Assumptions decodebits_refines.
+
 (* decodeints inverts encodeints (mixed radix, multi-byte layout) whenever the group fits the bits used *)
 Theorem ints_roundtrip : forall nbits s0 sr n0 nr rest,
   in_sizes sr nr -> 0 <= n0 -> 0 <= nbits <= 320 ->
